@@ -7,7 +7,7 @@ import re
 from harness import core
 
 GEN = ['gen_tables', 'gen_regex', 'gen_config', 'gen_core']
-THEOREMS = ['C06_emphasis_phrases', 'C06_sequential_pairs', 'C06_emphasis_phrases_hypotheses', 'C06_emphasis_sound', 'C06_process_emphasis_sound', 'C06_emphasis_sound_hypotheses', 'C06_flanking_is_the_source', 'C06_simple_emphasis', 'C06_simple_emphasis_hypotheses', 'C06_emphasis_in_sentence', 'C06_emphasis_in_sentence_hypotheses', 'C06_tables', 'C06_flanking', 'C06_closed_by', 'C06_bounded_alpha5_7', 'C06_bounded_star_under_12']
+THEOREMS = ['C06_nested_emphasis', 'C06_nested_pairs', 'C06_nested_emphasis_instance', 'C06_emphasis_phrases', 'C06_sequential_pairs', 'C06_emphasis_phrases_hypotheses', 'C06_emphasis_sound', 'C06_process_emphasis_sound', 'C06_emphasis_sound_hypotheses', 'C06_flanking_is_the_source', 'C06_simple_emphasis', 'C06_simple_emphasis_hypotheses', 'C06_emphasis_in_sentence', 'C06_emphasis_in_sentence_hypotheses', 'C06_tables', 'C06_flanking', 'C06_closed_by', 'C06_bounded_alpha5_7', 'C06_bounded_star_under_12']
 TRUSTED = ['Spec/Delims.v: the CommonMark 0.30 delimiter algorithm written from the specification appendix (the yardstick)',
            'the model of core_tokens.py / span_tokenizer.py (tied by X-doc and X-inline)',
            'vm_compute for the kernel sweeps (33 shard files)']
@@ -180,6 +180,38 @@ def run(ctx, only=None):
                                 'what': 'a sentence of several emphasised phrases separated by plain text is not plain text and one emphasis per phrase, in order',
                                 'observed': g, 'expected': e, 'kf': None})
     compare(ctx, many[:2000], 'emphasis_phrases_vs_spec')
+    # the class of C06_nested_emphasis: an emphasised phrase holding a sentence of such phrases
+    nested, nwant = [], []
+    for _ in range(3000 if ctx.quick() else 40000):
+        def word():
+            w = ' '.join(rng.choice(pieces) for _ in range(rng.randint(1, 3)))
+            return w if (w[0].isalnum() and w[-1].isalnum()) else 'w'
+        pre = rng.choice(['', 'Say ', 'x: ', '(', 'one two. ', '"'])
+        post = rng.choice(['', '.', ' end', ', then', ')', '" ok', '; z'])
+        och, odbl = rng.choice('*_'), rng.random() < 0.5
+        orun, otag = och * (2 if odbl else 1), ('strong' if odbl else 'em')
+        h = word() + rng.choice([' ', ', ', ': ', ' ('])
+        body, bexp = '', ''
+        for _i in range(rng.randint(0, 4)):
+            w = word()
+            ch, dbl = rng.choice('*_'), rng.random() < 0.5
+            run_ = ch * (2 if dbl else 1)
+            t = rng.choice(seps)
+            body += run_ + w + run_ + t
+            bexp += (('<strong>%s</strong>' if dbl else '<em>%s</em>') % w) + t
+        z = word()
+        nested.append(pre + orun + h + body + z + orun + post)
+        nwant.append(pre + '<%s>' % otag + h + bexp + z + '</%s>' % otag + post)
+    with mp.Pool(core.NPROC) as pool:
+        got = [x for part in pool.map(impl_emph, chunks(nested, 2000)) for x in part]
+    for t_, g, e in zip(nested, got, nwant):
+        ctx.count('evaluations')
+        ctx.count('strings_nested_emphasis')
+        if g != e:
+            ctx.failing.append({'interface': 'oracle(nested emphasis)', 'input': {'text': t_},
+                                'what': 'an emphasised phrase holding emphasised phrases is not one emphasis around the text and the inner phrases',
+                                'observed': g, 'expected': e, 'kf': None})
+    compare(ctx, nested[:1500], 'nested_emphasis_vs_spec')
     ctx.count('distinct_nontrivial', sum(1 for s in texts if len(re.findall(r'\*+|_+', s)) >= 2))
     ctx.sample({'text': '*a **b c** d*', 'implementation': impl_emph(['*a **b c** d*'])[0]})
 
